@@ -250,6 +250,9 @@ pub enum TyperError {
     /// A property with an unknown name was declared
     PipelinePropertyUnknown(SourceLocation),
 
+    /// A pipeline was defined with the name of an earlier pipeline
+    PipelineAlreadyDefined(Located<String>, SourceLocation),
+
     /// A property was declared twice
     PipelinePropertyDuplicate(SourceLocation),
 
@@ -1096,6 +1099,18 @@ impl CompileError for TyperExternalError {
             ),
             TyperError::PipelinePropertyUnknown(loc) => {
                 w.write_message(&|f| write!(f, "unknown property"), *loc, Severity::Error)
+            }
+            TyperError::PipelineAlreadyDefined(name, previous_location) => {
+                w.write_message(
+                    &|f| write!(f, "redefinition of pipeline '{}'", name.node),
+                    name.location,
+                    Severity::Error,
+                )?;
+                w.write_message(
+                    &|f| write!(f, "previous definition is here"),
+                    *previous_location,
+                    Severity::Note,
+                )
             }
             TyperError::PipelinePropertyDuplicate(loc) => w.write_message(
                 &|f| write!(f, "property declared multiple times"),
